@@ -182,10 +182,10 @@ def run(ctx):
         remote_every, pack_every = 12, 8
     else:
         plan = [("<=4 revisions, ghost", hc.gen_cfg(1, 4, 2, 1), L, True, True),
-                ("5 revisions", hc.gen_cfg(5, 5, 2, 0, 2, off), L, True, False),
-                ("5 revisions, ghost", hc.gen_cfg(5, 5, 2, 1, 8, off), L, True, False),
+                ("5 revisions", hc.gen_cfg(5, 5, 2, 0, 3, off), L, True, False),
+                ("5 revisions, ghost", hc.gen_cfg(5, 5, 2, 1, 12, off), L, True, False),
                 ("<=4 revisions, 3 parents, ghost", hc.gen_cfg(3, 4, 3, 1, 3, off), L, True, False),
-                ("6 revisions", hc.gen_cfg(6, 6, 2, 0, 40, off), L, True, False),
+                ("6 revisions", hc.gen_cfg(6, 6, 2, 0, 60, off), L, True, False),
                 ("120 seeded random graphs, 7-10 revisions, <= 3 parents, ghost", hc.gen_cfg(7, 10, 3, 1), L, True, False,
                  hc.random_graphs(ctx.rng, 120, 7, 10))]
         remote_every, pack_every = 10, 6
